@@ -111,6 +111,15 @@ func buildClientHello(browser browser, fields clientHelloFields) ([]byte, error)
 	return uclient.HandshakeState.Hello.Raw, nil
 }
 
+// Close closes the underlying connection. Handshake may fail before the TLSConn has been
+// set up (the very first write failing), and the caller closes the transport on every failure
+func (tls *DirectTLS) Close() error {
+	if tls.TLSConn != nil {
+		return tls.TLSConn.Close()
+	}
+	return nil
+}
+
 // Handshake handles the TLS handshake for a given conn and returns the sessionKey
 // if the server proceed with Cloak authentication
 func (tls *DirectTLS) Handshake(rawConn net.Conn, authInfo AuthInfo) (sessionKey [32]byte, err error) {
